@@ -73,7 +73,7 @@ def two_surfaces(cfg):
 # ------------------------------------------------------------------------------------------- geometry transformations
 
 def _geo(name, path, opts, ranges=(), cfgs=None, cost=1.0, **dk):
-    @job("deriv." + name, ("C01", "C03"), cfgs=cfgs or product(shapes_1surf(), SYM_Q), ranges=ranges, cost=cost)
+    @job("deriv." + name, ("C01", "C02", "C03"), cfgs=cfgs or product(shapes_1surf(), SYM_Q), ranges=ranges, cost=cost)
     def _f(env, **cfg):
         env.add_ranges(*MESH_RANGES)
         derivative_contract(env, lambda: cls(path)(**opts(cfg)), **dk)
@@ -107,7 +107,7 @@ _geo("Rotate", "geometry.geometry_mesh_transformations.Rotate",
      cfgs=product(shapes_1surf(thorough=((3, 3), (2, 4))), SYM_Q, [dict(ref_axis_pos=0.25), dict(ref_axis_pos=0.7, _tier=T)]))
 
 
-@job("deriv.Taper", ("C01", "C03"), ranges=[(r"^(P\.)?taper", 0.3, 0.9)],
+@job("deriv.Taper", ("C01", "C02", "C03"), ranges=[(r"^(P\.)?taper", 0.3, 0.9)],
      cfgs=product(shapes_1surf(), SYM, [dict(ref_axis_pos=0.25), dict(ref_axis_pos=0.5, _tier=T)]))
 def _taper(env, **cfg):
     m = mesh(cfg["nx"], _shape(cfg)[1], cfg["symmetry"], cfg.get("side", "left"))
@@ -118,7 +118,7 @@ def _taper(env, **cfg):
 # ------------------------------------------------------------------------------------------- single-surface components
 
 def _surf(name, path, cfgs=None, ranges=(), cost=1.0, extra_opts=None, surf_kw=None, **dk):
-    @job("deriv." + name, ("C01", "C03"), cfgs=cfgs or product(shapes_1surf(), SYM_Q), ranges=ranges, cost=cost)
+    @job("deriv." + name, ("C01", "C02", "C03"), cfgs=cfgs or product(shapes_1surf(), SYM_Q), ranges=ranges, cost=cost)
     def _f(env, **cfg):
         env.add_ranges(*MESH_RANGES)
         s = surf_of(cfg, **(surf_kw or {}))
@@ -130,7 +130,7 @@ def _surf(name, path, cfgs=None, ranges=(), cost=1.0, extra_opts=None, surf_kw=N
 
 
 def _surfs(name, path, cfgs=None, ranges=(), cost=1.0, extra_opts=None, **dk):
-    @job("deriv." + name, ("C01", "C03"), cfgs=cfgs or MULTI, ranges=ranges, cost=cost)
+    @job("deriv." + name, ("C01", "C02", "C03"), cfgs=cfgs or MULTI, ranges=ranges, cost=cost)
     def _f(env, **cfg):
         env.add_ranges(*MESH_RANGES)
         o = dict(surfaces=two_surfaces(cfg))
@@ -163,7 +163,7 @@ _surf("WaveDrag", "aerodynamics.wave_drag.WaveDrag", ranges=[(r"^(P\.)?Mach", 0.
 _surf("WaveDrag.off", "aerodynamics.wave_drag.WaveDrag", surf_kw=dict(with_wave=False))
 
 
-@job("deriv.Coeffs", ("C01", "C03"))
+@job("deriv.Coeffs", ("C01", "C02", "C03"))
 def _coeffs(env):
     derivative_contract(env, lambda: cls("aerodynamics.coeffs.Coeffs")())
 
@@ -267,12 +267,12 @@ _surfs("SumAreas", "functionals.sum_areas.SumAreas", ranges=POS)
 _surfs("TotalLiftDrag", "functionals.total_lift_drag.TotalLiftDrag", ranges=POS)
 
 
-@job("deriv.ReynoldsComp", ("C01", "C03"), ranges=POS + [(r"mu", 0.5, 1.5)])
+@job("deriv.ReynoldsComp", ("C01", "C02", "C03"), ranges=POS + [(r"mu", 0.5, 1.5)])
 def _reynolds(env):
     derivative_contract(env, lambda: cls("common.reynolds_comp.ReynoldsComp")())
 
 
-@job("deriv.MultiCD", ("C01", "C03"), cfgs=[dict(n_points=1), dict(n_points=3)])
+@job("deriv.MultiCD", ("C01", "C02", "C03"), cfgs=[dict(n_points=1), dict(n_points=3)])
 def _multicd(env, n_points):
     derivative_contract(env, lambda: cls("integration.multipoint_comps.MultiCD")(n_points=n_points))
 
@@ -307,7 +307,7 @@ def _fem(env, **cfg):
     implicit_contract(env, lambda: cls("structures.fem.FEM")(surface=surf_of(cfg)), requires=symmetric_blocks)
 
 
-@job("deriv.AtmosComp", ("C01", "C03", "C17"), ranges=[(r"altitude", 1000.0, 40000.0), (r"Mach", 0.2, 0.9)])
+@job("deriv.AtmosComp", ("C01", "C02", "C03", "C17"), ranges=[(r"altitude", 1000.0, 40000.0), (r"Mach", 0.2, 0.9)])
 def _atmos(env):
     env.assumptions.add("scipy Akima1DInterpolator.derivative(1) is the derivative of the interpolant (external contract)")
     derivative_contract(env, lambda: cls("common.atmos_comp.AtmosComp")(), pre=lambda env, h: env.use_helpers("atmos"))
